@@ -34,6 +34,7 @@ TNext ==
             /\ SeqToSet(E.prov) \subseteq {E.n}                   \* NoForeignProvenance: no byte of another record
             /\ UNCHANGED <<where, refs>>
        [] E.ev = "Run" -> /\ E.allAccounted /\ E.decodeErrors = 0 /\ E.badLabels = <<>>
+                          /\ E.gatherErrors = 0      \* the metric registry is consistent (no two pipelines / key sets with the same labels)
                           /\ where' = [o \in Objs |-> "fresh"] /\ refs' = [o \in Objs |-> 0] \* the next agent has its own allocator
        [] E.ev = "OutputDone" -> E.unowned = 0 /\ E.reused > 0 /\ UNCHANGED <<where, refs>>
        [] OTHER -> FALSE
